@@ -63,9 +63,11 @@ theorem fresh_wire_id {q : Nat} {s s' : St} {a : Act} (h : Reachable q s)
   · exact Or.inr ⟨fun e he => Nat.lt_of_le_of_lt (g.wroteLe e he) h1,
       fun p' hp' => Nat.lt_of_le_of_lt (g.idsLe p' hp') h1⟩
 
-example : ∃ s, run (init 2) [.queueDirect 7, .queueBatched 8, .queueBatched 9, .queueDirect 5] = some s ∧
-    s.sent = [(1, .single 7), (2, .multi [8]), (3, .single 5)] ∧
-    s.wroteAs = [(7, 1), (8, 2), (5, 3)] ∧ s.nextId = 3 := by
+/-- (an unsendable call consumes id 3 without registering anything) -/
+example : ∃ s, run (init 2) [.queueDirect 7, .queueBatched 8, .queueBatched 9, .queueUnsendable 6,
+      .queueDirect 5] = some s ∧
+    s.sent = [(1, .single 7), (2, .multi [8]), (4, .single 5)] ∧
+    s.wroteAs = [(7, 1), (8, 2), (5, 4)] ∧ s.nextId = 4 ∧ s.delivered = [⟨6, .fatal, none⟩] := by
   refine ⟨_, rfl, ?_⟩
   decide
 
